@@ -1,20 +1,23 @@
 ---------------------------- MODULE MC_BlockValidity ----------------------------
 EXTENDS BlockValidity
 
-Cfg(id, power, last, maxMal, maxHdr) ==
-  [id |-> id, n |-> Len(power), power |-> power, last |-> last, maxMal |-> maxMal, maxHdr |-> maxHdr]
+Cfg(id, power, last, maxMal, maxHdr, classes) ==
+  [id |-> id, n |-> Len(power), power |-> power, last |-> last, maxMal |-> maxMal, maxHdr |-> maxHdr, classes |-> classes]
 
-(* <= 2 malformations anywhere (3 and 4 validators, unequal powers); block 1; every commit over 3 slots *)
-Q2  == Cfg("q",  <<1, 1, 2>>,    2, 2, 2)
-H1  == Cfg("h1", <<2, 2, 2, 1>>, 0, 3, 3)
-S3  == Cfg("s3", <<1, 2, 3>>,    1, 3, 0)
-N4  == Cfg("n4", <<2, 2, 2, 1>>, 2, 2, 2)
-(* every commit over 4 slots (11^4), unequal and equal powers; <= 3 malformations anywhere *)
-S4  == Cfg("s4",  <<3, 2, 2, 1>>, 2, 4, 0)
-S4E == Cfg("s4e", <<1, 1, 1, 1>>, 1, 4, 0)
-M3  == Cfg("m3",  <<2, 2, 3>>,    1, 3, 3)
+All  == SlotClasses
+Core == SlotClasses \ {"nilSignedByOther", "otherBlockSignedByOther"}
+
+(* <= 2 malformations anywhere (3 and 4 validators, unequal powers); block 1; every commit over 3 slots (15^3) *)
+Q2  == Cfg("q",  <<1, 1, 2>>,    2, 2, 2, All)
+H1  == Cfg("h1", <<2, 2, 2, 1>>, 0, 3, 3, All)
+S3  == Cfg("s3", <<1, 2, 3>>,    1, 3, 0, All)
+N4  == Cfg("n4", <<2, 2, 2, 1>>, 2, 2, 2, All)
+(* every commit over 4 slots (13^4), unequal powers; <= 3 bad slots of 4, equal powers; <= 3 malformations anywhere *)
+S4  == Cfg("s4",  <<3, 2, 2, 1>>, 2, 4, 0, Core)
+S4E == Cfg("s4e", <<1, 1, 1, 1>>, 1, 3, 0, All)
+M3  == Cfg("m3",  <<2, 2, 3>>,    1, 3, 3, Core)
 (* sanity run *)
-O1  == Cfg("o1",  <<1, 1, 2>>,    2, 1, 1)
+O1  == Cfg("o1",  <<1, 1, 2>>,    2, 1, 1, All)
 
 QuickConfigs    == {Q2, H1, S3, N4}
 ThoroughConfigs == {S4, S4E, M3}
